@@ -1,3 +1,78 @@
-(* C08 — property theorems. *)
+(* C08 — property theorems.  Only statements, [exact lemma] and Print Assumptions.
+   valid_input = every pair has a char in U+0000..U+10FFFF and a glyph id in 1..65535;
+   canon input = the input sorted and de-duplicated (what from_mappings works with). *)
 From Coq Require Import ZArith List.
 From FV Require Import Lib.RustInt C08.Model C08.Proofs.
+Import ListNotations.
+Open Scope Z_scope.
+
+(* Format 4: for every mapping that from_mappings turns into a table (i.e. conflict-free and
+   within the format-4 limits: no F-2 / F-9 panic), the compiled segment arrays answer every BMP
+   code point other than U+FFFF with exactly the input mapping. *)
+Theorem cmap4_answers : forall input t4 o12, valid_input input -> from_mappings input = Built (Some t4) o12 ->
+  forall c, 0 <= c <= 65535 -> c <> 65535 -> cmap4_map t4 c = assoc c (canon input).
+Proof. exact cmap4_answers_assoc_lemma. Qed.
+Theorem cmap4_answers_in : forall input t4 o12, valid_input input -> from_mappings input = Built (Some t4) o12 ->
+  forall c g, 0 <= c <= 65535 -> c <> 65535 -> (cmap4_map t4 c = Some g <-> In (c, g) input).
+Proof. exact cmap4_answers_lemma. Qed.
+
+(* The segment computer never trips its assertion and its segments partition the BMP part of the
+   sorted mapping into runs of consecutive code points (delta segments: consecutive glyph ids too). *)
+Theorem segments_partition : forall sorted,
+  exists segs, compute_segments sorted = Some segs /\ segs_cover segs 0 (bmp_prefix sorted).
+Proof. exact segments_partition_lemma. Qed.
+
+(* idDelta: whenever the i16 conversion does not panic the stored delta reproduces gid - cp modulo 2^16 ... *)
+Theorem delta_mod_65536 : forall d d16, delta_i16 d = Some d16 -> -32768 <= d16 < 32768 /\ (d16 - d) mod 65536 = 0.
+Proof. exact delta_mod_65536_lemma. Qed.
+(* ... and it panics exactly for gid - cp in [32768, 65535] (finding F-2) *)
+Theorem delta_panics_iff : forall d, -65536 < d < 65536 -> (delta_i16 d = None <-> 32768 <= d <= 65535).
+Proof. exact delta_panics_iff_lemma. Qed.
+
+(* Format 12: lookup = the mapping, for every code point; iteration = exactly the input pairs in
+   ascending order; groups non-empty, ascending, disjoint, maximal. *)
+Theorem cmap12_answers : forall input o4 gs, valid_input input -> from_mappings input = Built o4 (Some gs) ->
+  forall c g, 0 <= c -> (cmap12_map gs c = Some g <-> In (c, g) input).
+Proof. exact cmap12_answers_lemma. Qed.
+Theorem cmap12_iter_exact : forall input o4 gs, valid_input input -> from_mappings input = Built o4 (Some gs) ->
+  cmap12_iter None gs = canon input /\ asc (canon input) /\ (forall p, In p (canon input) <-> In p input) /\
+  (forall i a, nth_error gs i = Some a -> g_start a <= g_end a) /\
+  (forall i a b, nth_error gs i = Some a -> nth_error gs (S i) = Some b ->
+     g_end a < g_start b /\ ~ (g_start b = g_end a + 1 /\ g_gid b = g_gid a + (g_end a - g_start a) + 1)).
+Proof. exact cmap12_iter_exact_lemma. Qed.
+
+(* Which subtables exist: format 12 iff some char is beyond the BMP; format 4 iff some char is in it. *)
+Theorem subtable_choice : forall input o4 o12, valid_input input -> from_mappings input = Built o4 o12 ->
+  (o12 <> None <-> exists p, In p input /\ 65535 < fst p) /\
+  (o4 <> None <-> exists p, In p input /\ fst p <= 65535).
+Proof. exact subtable_choice_lemma. Qed.
+
+(* The table-level Cmap::map_codepoint over the four emitted encoding records. *)
+Theorem cmap_answers : forall input o4 o12, valid_input input -> from_mappings input = Built o4 o12 ->
+  forall c, 0 <= c -> c <> 65535 -> cmap_map (records_of o4 o12) c = assoc c (canon input).
+Proof. exact cmap_answers_assoc_lemma. Qed.
+
+(* Conflicts: reported only when real, and never for a conflict-free input. *)
+Theorem conflict_sound : forall input ch g1 g2, from_mappings input = Conflict ch g1 g2 ->
+  g1 < g2 /\ In (ch, g1) input /\ In (ch, g2) input.
+Proof. exact conflict_reported. Qed.
+Theorem conflict_free_never_rejected : forall input, conflict_free input ->
+  forall ch g1 g2, from_mappings input <> Conflict ch g1 g2.
+Proof. exact conflict_free_accepted. Qed.
+
+(* "building succeeds" is FALSE of the unchanged code: a valid one-pair mapping panics (F-2). *)
+Theorem format4_build_refuted : exists input, valid_input input /\ conflict_free input /\ from_mappings input = Panic.
+Proof. exact format4_build_refuted_lemma. Qed.
+
+Print Assumptions cmap4_answers.
+Print Assumptions cmap4_answers_in.
+Print Assumptions segments_partition.
+Print Assumptions delta_mod_65536.
+Print Assumptions delta_panics_iff.
+Print Assumptions cmap12_answers.
+Print Assumptions cmap12_iter_exact.
+Print Assumptions subtable_choice.
+Print Assumptions cmap_answers.
+Print Assumptions conflict_sound.
+Print Assumptions conflict_free_never_rejected.
+Print Assumptions format4_build_refuted.
